@@ -290,13 +290,18 @@ def signature(kind, case, vecs, order):
     return "%s/%s/%s" % (kind, case["init"], "+".join(tys) if tys else "-")
 
 
+def mcb(case):
+    """callback mode as the model knows it: a NULL user argument (cbn) changes nothing"""
+    return "cb" if case["cbm"] == "cbn" else case["cbm"]
+
+
 def compare_model(case, k, ph, model):
     """model <-> code, event by event"""
     res = ph["res"]
     if res is None:
         return ["library did not return"]
     cpu = case["_cpu"]
-    key = (case["init"] if False else case["_minit"], case["cbm"], cpu, tuple(sorted(set(case["sets"][k]))) if case["cbm"] != "nocb" else ())
+    key = (case["init"] if False else case["_minit"], mcb(case), cpu, tuple(sorted(set(case["sets"][k]))) if case["cbm"] != "nocb" else ())
     m = model.get(key)
     if m is None:
         return ["no model prediction for %s" % (key,)]
@@ -343,10 +348,15 @@ def gen_cases(tier, rng, n, groups):
         add(i, f, "nocb", [[]], "baseline")
         add(i, f, "cb", [[]], "baseline")
         add(i, f, "cb0", [[]], "baseline")
+        add(i, f, "cbn", [[]], "baseline")
     # exhaustive singles on every init function x flags
     for v in range(n):
         for ci, (i, f) in enumerate(COMBOS):
             add(i, f, "cb", [[v]], "single", by_name=(ci + v) % 5 == 0)
+    # a callback registered with a NULL user argument behaves like any other (singles spread over the combos)
+    for v in range(n):
+        i, f = COMBOS[(v * 3 + 1) % len(COMBOS)]
+        add(i, f, "cbn", [[v]], "single-null-arg")
     # pairs within a group
     pairs = [p for g in groups for p in itertools.combinations(g, 2)]
     if tier == "quick":
@@ -428,7 +438,7 @@ def wanted_model_keys(cases, outs):
             continue
         cpu = r["phases"][0]["pre_features"]
         for s in c["sets"]:
-            w.add(("auto", c["cbm"], cpu, tuple(sorted(set(s))) if c["cbm"] != "nocb" else ()))
+            w.add(("auto", mcb(c), cpu, tuple(sorted(set(s))) if c["cbm"] != "nocb" else ()))
     return w
 
 
